@@ -340,11 +340,25 @@ func genC12Inert(r *rng, n int, w *bufio.Writer) {
 			sep = "\r\n"
 		}
 		a := strings.Join(lines, "\n")
+		web, dns, hosts := eBatch(r, lines, 8)
+		if r.chance(1, 3) {
+			// noise lines longer than the scanner's read buffer whose tail, were it ever read as a line of
+			// its own, would be a live rule for one of the queried hosts
+			h := hosts[0]
+			if len(dns) > 0 && dns[0].Hostname != "" {
+				h = dns[0].Hostname
+			}
+			for _, tail := range []string{"||" + h + "^$important", "@@||" + h + "^$important", "0.0.0.0 " + h} {
+				fill := strings.Repeat(pick(r, []string{"x", "-", "ab ", "é"}), 4200+r.n(300))
+				long := pick(r, []string{"! ", "# ", "!"}) + fill[:4090+r.n(20)] + tail
+				at := r.n(len(noisy) + 1)
+				noisy = append(noisy[:at], append([]string{long}, noisy[at:]...)...)
+			}
+		}
 		b := strings.Join(noisy, sep)
 		if r.chance(1, 2) {
 			b += sep
 		}
-		web, dns, hosts := eBatch(r, lines, 8)
 		diff := ""
 		ans := guardStr(func() string {
 			ra := eResults(a, web, dns, hosts)
